@@ -110,6 +110,18 @@ impl V {
             V::Func(b, m) => IDLValue::Func(Principal::from_slice(b), String::from_utf8(m.clone()).expect("utf8 method")),
         }
     }
+    /// like to_idl, but every vector made of nat8 values only is handed over as IDLValue::Blob (what the text parser and the
+    /// decoder produce for blobs)
+    pub fn to_idl_blob(&self) -> IDLValue {
+        match self {
+            V::Vec(vs) if !vs.is_empty() && vs.iter().all(|v| matches!(v, V::NatN(8, _))) => IDLValue::Blob(vs.iter().map(|v| match v { V::NatN(_, n) => *n as u8, _ => 0 }).collect()),
+            V::Opt(Some(v)) => IDLValue::Opt(Box::new(v.to_idl_blob())),
+            V::Vec(vs) => IDLValue::Vec(vs.iter().map(|v| v.to_idl_blob()).collect()),
+            V::Rec(fs) => IDLValue::Record(fs.iter().map(|(i, v)| IDLField { id: Label::Id(*i), val: v.to_idl_blob() }).collect()),
+            V::Variant(i, v) => IDLValue::Variant(VariantValue(Box::new(IDLField { id: Label::Id(*i), val: v.to_idl_blob() }), 0)),
+            _ => self.to_idl(),
+        }
+    }
     pub fn size(&self) -> usize {
         1 + match self {
             V::Opt(Some(v)) | V::Variant(_, v) => v.size(),
